@@ -197,6 +197,35 @@ def run(ctx):
         if lie == len(x) and failed:
             ctx.violation(dict(kind="pledge", pledged=lie, actual=len(x), result=rest[:300]), what="compression with a correct pledged size failed")
         ctx.count(("pledge", lie == len(x), min(len(x), 2)), nontrivial=True)
+    # streaming checksum (theorem C09_checksum_is_chunking_independent): XXH64_reset / update per chunk / digest of the current tree vs the model
+    xexe = core.build_harness("c09_xxh", ["c09_xxh.c"], variant="o1", extra_flags=["-w"], link_lib=True)
+    xc = []
+    for i in range(60 if ctx.quick else 600):
+        total = rng.choice([0, 1, 31, 32, 33, 63, 64, 65, 100, 1000, 5000])
+        data = rng.randbytes(total)
+        cuts = sorted(rng.sample(range(total + 1), min(total + 1, rng.choice([0, 1, 2, 5, 40])))) if total else []
+        chunks, prev = [], 0
+        for cpos in cuts + [total]:
+            chunks.append(data[prev:cpos])
+            prev = cpos
+        if rng.random() < 0.3:
+            chunks.insert(rng.randrange(len(chunks) + 1), b"")
+        xc.append(("x%d" % i, rng.choice([0, 0, 1, 2 ** 64 - 1, rng.getrandbits(64)]), chunks))
+    xin = "\n".join("%s %d %s" % (i, sd, "_".join(c.hex() or "-" for c in ch)) for i, sd, ch in xc) + "\n"
+    xo = core.sh([xexe], inp=xin.encode())[1]
+    ximpl = {l.split(" ")[0]: l.split(" ")[2:] for l in xo.splitlines() if l}
+    xlines = ["%s xxh=%d %s -" % (i, sd, "_".join(c.hex() for c in ch) or "-") for i, sd, ch in xc]
+    xm, _ = codec._run_chunks(cd.r_exe(), xlines, core.NCPU, 600)
+    for i, sd, ch in xc:
+        got = ximpl.get(i)
+        mod = xm.get(i, "ERR").split(" ")
+        ctx.count(("xxh", len(ch) > 1, min(sum(map(len, ch)), 64) // 32), nontrivial=True)
+        if not got or got[0] != got[1]:
+            ctx.violation(dict(kind="xxh-streaming", seed=sd, chunks=[c.hex() for c in ch][:50], result=str(got)),
+                          what="XXH64 streaming digest differs from the one-shot digest of the concatenation (%d chunks, %d bytes)" % (len(ch), sum(map(len, ch))))
+        elif mod[0] != "OK" or mod[1] != got[0]:
+            ctx.violation(dict(kind="xxh-model", seed=sd, chunks=[c.hex() for c in ch][:50], impl=got[0], model=" ".join(mod)),
+                          what="the XXH64 streaming model disagrees with XXH64_update/digest of the current tree", no_input=True)
     ctx.notes["layouts"] = len(cat)
     ctx.notes["complete_frames_decoded"] = nfull
     ctx.sample(dict(layout=cat[0][0], frame_hex=cat[0][1].hex(), cut_points="1..%d" % (len(cat[0][1]) - 1)))
